@@ -473,6 +473,7 @@ def focused_docs() -> list[tuple[str, dict]]:
         )
     )
     docs += disc_docs()
+    docs += twin_docs()
     rec = lambda nm: {"type": "object", "properties": {"kind": {"const": nm}, "name": {"type": "string"}, "age": {"type": "integer", "minimum": 0}}, "required": ["kind", "name"], "additionalProperties": False}  # noqa: E731
     docs.append(
         (
@@ -490,6 +491,36 @@ def focused_docs() -> list[tuple[str, dict]]:
     docs.append(("alias", {"title": "Model", "type": "object", "properties": {"kebab-name": {"type": "integer"}, "class": {"type": "string"}, "with space": {"type": "boolean"}, "1st": {"type": "number"}}, "required": ["kebab-name", "class"]}))
     docs.append(("dict", {"title": "Model", "type": "object", "properties": {"m": {"type": "object", "additionalProperties": {"type": "integer", "minimum": 0}}, "n": {"type": "object", "additionalProperties": {"$ref": "#/definitions/P"}}}, "definitions": {"P": {"type": "object", "properties": {"x": {"type": "number"}}, "required": ["x"]}}}))
     return docs
+
+
+def twin_docs() -> list[tuple[str, dict]]:
+    """definitions with the same members that differ in ONE detail — what a de-duplicating pass (`--reuse-model`)
+    must keep apart — in both orders, and a pair that differs in nothing"""
+    base = {"type": "object", "properties": {"name": {"type": "string"}, "n": {"type": "integer", "minimum": 0}}, "required": ["name"]}
+
+    def doc(a: dict, b: dict) -> dict:
+        return {
+            "title": "Model",
+            "type": "object",
+            "properties": {"p": {"$ref": "#/definitions/Alpha"}, "q": {"$ref": "#/definitions/Beta"}, "ps": {"type": "array", "items": {"$ref": "#/definitions/Alpha"}}},
+            "required": ["p", "q"],
+            "definitions": {"Alpha": a, "Beta": b},
+        }
+
+    variants = {
+        "ap_false_true": ({**base, "additionalProperties": False}, {**base, "additionalProperties": True}),
+        "ap_false_absent": ({**base, "additionalProperties": False}, dict(base)),
+        "bound": (dict(base), {**base, "properties": {**base["properties"], "n": {"type": "integer", "minimum": 1}}}),
+        "required": (dict(base), {**base, "required": ["name", "n"]}),
+        "const": ({**base, "properties": {"kind": {"const": "Alpha"}, **base["properties"]}}, {**base, "properties": {"kind": {"const": "Beta"}, **base["properties"]}}),
+        "identical": (dict(base), dict(base)),
+    }
+    out = []
+    for k, (a, b) in variants.items():
+        out.append((f"twins_{k}", doc(a, b)))
+        if k != "identical":
+            out.append((f"twins_{k}_rev", doc(b, a)))
+    return out
 
 
 def disc_docs() -> list[tuple[str, dict]]:
@@ -607,7 +638,10 @@ def campaign_random(ck: Check, n: int) -> None:
             oracle_doc(ck, camp, doc, t, insts)
         if "discriminator" in feats and i % 4 == 3:
             oracle_doc(ck, camp, doc, ("v2", "contype", "openapi"), insts)
-        if feats & {"twins", "tagged_records", "name_clash", "scalar_def", "root_model"} or i % 5 == 2:
+        if feats & {"twins", "tagged_records"}:
+            for t in OPTION_TARGETS[:2]:
+                oracle_doc(ck, camp, doc, t, insts)
+        elif feats & {"name_clash", "scalar_def", "root_model"} or i % 5 == 2:
             oracle_doc(ck, camp, doc, OPTION_TARGETS[i % len(OPTION_TARGETS)], insts)
         if i % 2 == 0:
             cfg2 = gen_cfg(i)
